@@ -50,6 +50,13 @@ impl Rec {
             println!("FAIL\t{}\t{}\t{:?}\t{:?}", self.case, label, exp, got);
         }
     }
+    /// differential oracle: two flavours must produce the same (normalised Debug) value
+    pub fn same(&mut self, label: &str, a: String, b: String) {
+        self.checks += 1;
+        if a != b {
+            println!("FAIL\t{}\t{}\t{}\t{}", self.case, label, b, a);
+        }
+    }
     pub fn ok(&mut self, label: &str, cond: bool, what: &str) {
         self.checks += 1;
         if !cond {
@@ -57,6 +64,8 @@ impl Rec {
         }
     }
 }
+/// Debug text with the twin type names normalised (Tf -> T, Sf -> S)
+pub fn dbg<T: Debug>(t: &T) -> String { format!("{:?}", t).replace("Tf", "T").replace("Sf", "S") }
 /// helper for `?`-raising member expressions: Err(Er(marker)) when v is the trigger value
 pub fn chk(v: i32, marker: i64) -> Result<i32, Er> { if v == -777 { Err(Er(marker)) } else { Ok(v + marker as i32) } }
 thread_local! { pub static LOG: std::cell::RefCell<Vec<i64>> = std::cell::RefCell::new(Vec::new()); }
